@@ -1,5 +1,5 @@
 (* Statement pins for the codec area. *)
-From FlacCodec Require Import Wf Spec Stream Progress EncChoice Damage Prefix Interrupted Props_codec.
+From FlacCodec Require Import Wf Spec Stream Progress EncChoice Damage Prefix Interrupted Inverse Inverse_frame Props_codec.
 From FlacBase Require Import Crc.
 Open Scope N_scope.
 Check (C17_parse_inverts_write : forall si f bytes rest,
@@ -34,3 +34,6 @@ Check (C14_interrupted_stream : forall si fs allb g gb m fuel cur acc,
   (length allb + m < fuel)%nat ->
   let '(out, e) := dec_frames fuel si cur (allb ++ firstn m gb) acc in
   out = rev acc ++ map (fun f => interleave_frame (sem_frame f)) fs /\ is_end_panic e = false).
+Check (C17_write_inverts_parse : forall si bytes f rest,
+  Forall byte bytes -> struct_frame si bytes = Ok (f, rest) -> frame_canonical si bytes = true ->
+  exists b, write_frame f = Some b /\ bytes = b ++ rest).
